@@ -1,5 +1,129 @@
+import BlockCiphers.Proofs.SerpentSpec
+import BlockCiphers.Proofs.TwofishSpec
+import BlockCiphers.Proofs.Cast6Spec
+import BlockCiphers.Proofs.Serpent
 /-
-C08 — theorem file (property theorems only).  Filled in as the models it needs are merged; see DESIGN §7 C08.
+C08 — Serpent, Twofish and CAST-256 conform, including variable key sizes
+GENERATED statement file (tools/gen_thm.py): every theorem below restates, verbatim, a theorem of a Proofs/ module
+and is proved by applying it.  ONLY property theorems and non-vacuity examples live in Thm/.
 -/
-namespace BC.Thm.C08
-end BC.Thm.C08
+
+namespace BC.Serpent
+open BC.Spec.Serpent
+/-- Serpent as implemented = bitslice-mode Serpent of the submission, for every key of 16..32 bytes -/
+theorem C08.serpent_encrypt_eq_spec (key : Bytes) (h1 : 16 ≤ key.length) (h2 : key.length ≤ 32) (blk : BitVec 128) :
+    Serpent.encrypt (keySchedule key) blk = Spec.Serpent.encrypt key blk :=
+  _root_.BC.Serpent.encrypt_eq_spec key h1 h2 blk
+end BC.Serpent
+
+namespace BC.Serpent
+open BC.Spec.Serpent
+theorem C08.serpent_decrypt_eq_spec (key : Bytes) (h1 : 16 ≤ key.length) (h2 : key.length ≤ 32) (blk : BitVec 128) :
+    Serpent.decrypt (keySchedule key) blk = Spec.Serpent.decrypt key blk :=
+  _root_.BC.Serpent.decrypt_eq_spec key h1 h2 blk
+end BC.Serpent
+
+namespace BC.Serpent
+open BC.Spec.Serpent
+theorem C08.expandKey_eq_padKey (key : Bytes) (h1 : 16 ≤ key.length) (h2 : key.length ≤ 32) :
+    expandKey key (key.length * 8) = padKey key :=
+  _root_.BC.Serpent.expandKey_eq_padKey key h1 h2
+end BC.Serpent
+
+namespace BC.Serpent
+open BC.Spec.Serpent
+/-- `expand_key` for the 16 short lengths 16..31: `key ++ [0x01] ++ zeros` -/
+theorem C08.expandKey_short (key : Bytes) (h1 : 16 ≤ key.length) (h2 : key.length < 32) :
+    expandKey key (key.length * 8) = key ++ 0x01#8 :: List.replicate (31 - key.length) 0x00#8 :=
+  _root_.BC.Serpent.expandKey_short key h1 h2
+end BC.Serpent
+
+namespace BC.Serpent
+open BC.Spec.Serpent
+/-- `expand_key` for a 256-bit key: unchanged -/
+theorem C08.expandKey_full (key : Bytes) (h : key.length = 32) : expandKey key (key.length * 8) = key :=
+  _root_.BC.Serpent.expandKey_full key h
+end BC.Serpent
+
+namespace BC.Serpent
+open BC.Spec.Serpent
+/-- the guard of `new_from_slice` -/
+theorem C08.serpent_accepts_iff (n : Nat) : accepts n = true ↔ 16 ≤ n ∧ n ≤ 32 :=
+  _root_.BC.Serpent.accepts_iff n
+end BC.Serpent
+
+namespace BC.Serpent
+theorem C08.encrypt_eq_encryptLoop (rk : RoundKeys) (blk : BitVec 128) : encrypt rk blk = encryptLoop rk blk :=
+  _root_.BC.Serpent.encrypt_eq_encryptLoop rk blk
+end BC.Serpent
+
+namespace BC.Serpent
+theorem C08.decrypt_eq_decryptLoop (rk : RoundKeys) (blk : BitVec 128) : decrypt rk blk = decryptLoop rk blk :=
+  _root_.BC.Serpent.decrypt_eq_decryptLoop rk blk
+end BC.Serpent
+
+namespace BC.Twofish
+open BC.Spec
+/-- **Impl = Spec** (encryption): for every key of 16, 24 or 32 bytes and every block, the model of the Rust
+`encrypt_block` is Twofish encryption as defined in the paper. -/
+theorem C08.twofish_encrypt_eq_spec (key : Array (BitVec 8)) (hk : key.size = 16 ∨ key.size = 24 ∨ key.size = 32)
+    (b : BitVec 128) : encrypt (keySchedule key) b = Spec.Twofish.encrypt key b :=
+  _root_.BC.Twofish.encrypt_eq_spec key hk b
+end BC.Twofish
+
+namespace BC.Twofish
+open BC.Spec
+/-- **Impl = Spec** (decryption): the model of `decrypt_block` is the inverse of the paper's encryption. -/
+theorem C08.decrypt_spec_encrypt (key : Array (BitVec 8)) (hk : key.size = 16 ∨ key.size = 24 ∨ key.size = 32)
+    (b : BitVec 128) : decrypt (keySchedule key) (Spec.Twofish.encrypt key b) = b :=
+  _root_.BC.Twofish.decrypt_spec_encrypt key hk b
+end BC.Twofish
+
+namespace BC.Twofish
+open BC.Spec
+theorem C08.spec_encrypt_decrypt (key : Array (BitVec 8)) (hk : key.size = 16 ∨ key.size = 24 ∨ key.size = 32)
+    (b : BitVec 128) : Spec.Twofish.encrypt key (decrypt (keySchedule key) b) = b :=
+  _root_.BC.Twofish.spec_encrypt_decrypt key hk b
+end BC.Twofish
+
+namespace BC.Twofish
+open BC.Spec
+theorem C08.sbox0_eq_q0 : ∀ x : BitVec 8, sbox 0 x = Spec.Twofish.q0 x :=
+  _root_.BC.Twofish.sbox0_eq_q0
+end BC.Twofish
+
+namespace BC.Twofish
+open BC.Spec
+theorem C08.sbox1_eq_q1 : ∀ x : BitVec 8, sbox 1 x = Spec.Twofish.q1 x :=
+  _root_.BC.Twofish.sbox1_eq_q1
+end BC.Twofish
+
+namespace BC.Cast6
+open BC.Spec.Cast6
+/-- CAST-256 as implemented = RFC 2612, for every key of 16/20/24/28/32 bytes -/
+theorem C08.cast6_encrypt_eq_spec (key : Bytes) (h : accepts key.length = true) (blk : BitVec 128) :
+    Cast6.encrypt (keySchedule key) blk = Spec.Cast6.encrypt key blk :=
+  _root_.BC.Cast6.encrypt_eq_spec key h blk
+end BC.Cast6
+
+namespace BC.Cast6
+open BC.Spec.Cast6
+theorem C08.cast6_decrypt_eq_spec (key : Bytes) (h : accepts key.length = true) (blk : BitVec 128) :
+    Cast6.decrypt (keySchedule key) blk = Spec.Cast6.decrypt key blk :=
+  _root_.BC.Cast6.decrypt_eq_spec key h blk
+end BC.Cast6
+
+namespace BC.Cast6
+open BC.Spec.Cast6
+/-- the padded key is the key followed by zero bytes, 32 bytes in all -/
+theorem C08.padKey_spec (key : Bytes) (h : accepts key.length = true) :
+    padKey key = key ++ List.replicate (32 - key.length) 0#8 ∧ (padKey key).length = 32 :=
+  _root_.BC.Cast6.padKey_spec key h
+end BC.Cast6
+
+namespace BC.Cast6
+open BC.Spec.Cast6
+/-- the five accepted lengths -/
+theorem C08.cast6_accepts_iff (n : Nat) : accepts n = true ↔ n = 16 ∨ n = 20 ∨ n = 24 ∨ n = 28 ∨ n = 32 :=
+  _root_.BC.Cast6.accepts_iff n
+end BC.Cast6
